@@ -217,7 +217,7 @@ class FSA:
         and `head`.
 
         """
-        return self._out_dict[tail][head]
+        return list(self._out_dict[tail][head])
 
     def add_vertices(self, vertices):
         """Add vertices to the FSA.
